@@ -72,20 +72,7 @@ theorem crun_gets_pure {T : Type} (tbl : Key → T) (ops : List COp) :
 section loss
 variable {A Q W : Type}
 
-theorem calcExt_fields (s : Loss A Q W) :
-    (calcExt s).option = s.option ∧ (calcExt s).q = s.q ∧ (calcExt s).matA = s.matA ∧
-    (calcExt s).weights = s.weights := by
-  obtain ⟨o, q, a, w, e⟩ := s
-  cases w <;> simp [calcExt]
-
-theorem calcExt_ext (s : Loss A Q W) :
-    (calcExt s).ext = match s.weights with | none => s.ext | some w => some w := by
-  obtain ⟨o, q, a, w, e⟩ := s
-  cases w <;> simp [calcExt]
-
-theorem calcExt_idem (s : Loss A Q W) : calcExt (calcExt s) = calcExt s := by
-  obtain ⟨o, q, a, w, e⟩ := s
-  cases w <;> simp [calcExt]
+theorem calcExt_ext (s : Loss A Q W) : (calcExt s).ext = s.weights := rfl
 
 /-- the state after one `set_from_standard_qtomography_option_data`, field by field -/
 theorem configure_eq (s : Loss A Q W) (c : Cfg A Q W) :
@@ -95,10 +82,11 @@ theorem configure_eq (s : Loss A Q W) (c : Cfg A Q W) :
         matA := some c.matA
         weights := match c.mode with
           | .identity => s.weights | .custom => c.optWeights | .invCov => some c.dataW | .ignored => s.weights
-        ext := match s.weights with | none => s.ext | some w => some w } := by
+        ext := match c.mode with
+          | .identity => s.weights | .custom => c.optWeights | .invCov => some c.dataW | .ignored => s.weights } := by
   obtain ⟨o, q, a, w, e⟩ := s
   obtain ⟨mode, ow, ma, cq, dw, g⟩ := c
-  cases g <;> cases mode <;> cases w <;> simp [configure, cfgOps, lstep, calcExt]
+  cases g <;> cases mode <;> simp [configure, cfgOps, lstep, calcExt, setWeights]
 
 end loss
 
